@@ -21,6 +21,7 @@ CLAUSES = {
     "C09.dtype": 150000,       # requested dtypes honoured with equal values
     "C09.history": 50000,      # live objects: after every in-place change every statistic == definition on the CURRENT raw calls
     "C09.derived": 25000,      # matrices returned by select/delete/insert/adjoin/concat/copy (+ in-place generic forms): class, ploidy, statistics
+    "C09.aliasing": 150000,    # returned arrays share no memory with the object; overwriting them leaves calls, labels, statistics intact
     "C09.genotyping": 25000,   # every genotyping protocol x mask x invert: calls, labels, ploidy, statistics, masked phased == masked unphased
 }
 HOOKS_REQUIRED = [
@@ -65,7 +66,12 @@ RULE = ("seeded class-based matrices: ploidy 2 (65 %) or 1/3/4/6; ntaxa from {1,
         "generic form with the axis counted from the front or from the end.  Genotyping (C09.genotyping): phased matrices "
         "(ploidy 1-4) with random label subsets, grouped or ungrouped variants, vrnt_mask absent or present (all-true, "
         "all-false, prefix, single true, single false, alternating, random) through DenseUnphasedGenotyping and "
-        "Dense Masked Unphased/Phased Genotyping with invert False and True.")
+        "Dense Masked Unphased/Phased Genotyping with invert False and True.  Aliasing (C09.aliasing): every array returned by "
+        "any statistic / coding call of any family is tested with numpy.shares_memory against every array the object holds "
+        "(raw calls, labels, group metadata, anything else in its __dict__); for 12 % of the fresh subjects and 7 % of the "
+        "history/derived/genotyping states an overwrite phase calls every statistic with the default dtype, the stored dtype "
+        "of the raw calls (int8) and one more requested dtype, and every coding, twice each, overwrites every element of "
+        "every returned array, and then checks raw calls (against the monitor's own copy), labels and all statistics.")
 ASSUME = [
     "alleles are coded 0/1 per chromosome copy (phased) or 0..ploidy per taxon (unphased); other values are out of domain",
     "meh: (ploidy/m)*sum p(1-p) (2pq averaged over loci for diploids); for ploidy != 2 the gene-diversity reading "
@@ -87,6 +93,9 @@ ASSUME = [
     "which calls end up where, is property C03) except the genotyping protocols, which must return on a valid phased "
     "matrix; the variant set of a masked protocol is the one its docstring states (mask True; invert=True: mask False; no "
     "mask: all variants); requests selecting no variant are not run (no statistics are defined for zero loci)",
+    "aliasing clause: a caller may overwrite any array a summary / coding method returns; numpy scalars (meh) are immutable "
+    "and not tested; label arrays shared between a genotyping protocol's output and its phased input are the library's "
+    "documented construction (labels are passed through) and are not part of this clause",
     "attribution: when an object's afreq() (resp. gtcount()) is itself reported in a case, statistics of the same object "
     "that are exactly what follows from the wrong value (afixed/apoly/maf/complement, resp. gtfreq), requested-dtype "
     "variants equal to the reported default answer, and phased-vs-unphased mismatches on an already reported statistic "
@@ -271,10 +280,100 @@ class Subject:
         self.failed_calls = set()   # methods that raised
 
 
+def own_arrays(obj):
+    """Every array the object itself holds: raw calls, label arrays, group metadata, and anything else it keeps (caches)."""
+    try:
+        return [(k, v) for k, v in vars(obj).items() if isinstance(v, numpy.ndarray)]
+    except TypeError:
+        return [("mat", obj.mat)]
+
+
+def shares(a, b):
+    return bool(numpy.may_share_memory(a, b) and numpy.shares_memory(a, b))
+
+
+def check_alias(ctx, S, site, out, icls, W, coords):
+    """C09.aliasing: an array handed to the caller must be the caller's own (no memory shared with the object)."""
+    if not isinstance(out, numpy.ndarray):
+        return True
+    hit = [k for k, v in own_arrays(S.obj) if shares(out, v)]
+    return ctx.check("C09.aliasing", not hit, site, "returned array shares no memory with the object's own arrays", icls,
+                     what="%s (%s) returned an array that shares memory with the object's %s: a caller who edits the result "
+                          "in place silently changes the object" % (site, icls, ", ".join(hit)),
+                     witness=dict(W, subject=S.kind, shared_with=hit, returned_dtype=str(out.dtype)), coords=coords)
+
+
+def clobber(a):
+    """What a caller may do with a result: overwrite every element (0 -> 1, non-zero -> 0)."""
+    if isinstance(a, numpy.ndarray) and a.size and a.flags.writeable:
+        a[...] = (a == 0)
+        return True
+    return False
+
+
+def matches_oracle(name, out, R):
+    exp = {"tacount": R.d, "acount": R.c, "gtcount": R.gt, "afixed": R.fixed, "apoly": R.poly,
+           "tafreq": R.tafreq, "afreq": R.p, "maf": R.maf, "meh": R.meh, "gtfreq": R.gtf}[name]
+    if KIND[name] in ("count", "flag"):
+        return exact(numpy.asarray(out), exp)
+    e = fdiff(out, exp)
+    if name == "meh" and R.P != 2:
+        e = min(e, fdiff(out, R.meh_alt))
+    return e <= TOL
+
+
+def overwrite_phase(ctx, S, R, g, W, coords):
+    """The caller overwrites every array the summary / coding methods return (default dtype, the stored dtype of the raw
+    calls, one more requested dtype; two calls each).  The object must be unaffected: raw calls and labels as before
+    (ground truth = the monitor's own copy of the calls, never obj.mat), a second call returns an independent array, and
+    all statistics queried afterwards still equal the oracle on the original calls."""
+    A = "C09.aliasing"
+    obj, raw = S.obj, S.raw
+    snap = {k: v.copy() for k, v in own_arrays(obj) if k != "_mat"}
+    ctx.sumnote("overwrite phases (caller overwrites every returned array)")
+    calls = []
+    for name in STATS:
+        pool = {"count": COUNT_DT, "flag": FLAG_DT, "freq": FREQ_DT}[KIND[name]]
+        for dt in (None, raw.dtype, pool[int(g.integers(len(pool)))]):
+            calls.append((name, () if dt is None else (dt,), "default dtype" if dt is None else "%s as %s" % (KIND[name], dtname(dt))))
+    for fmt in (FORMATS if R.P == 2 else FORMATS[:1]):
+        calls.append(("mat_asformat", (fmt,), "format " + fmt))
+    for meth, args, icls in calls:
+        site, a, ok = do_call(ctx, S, meth, args, {}, icls, W, coords)
+        if not ok or not isinstance(a, numpy.ndarray):
+            continue
+        site, b, ok = do_call(ctx, S, meth, args, {}, icls, W, coords)
+        if ok and isinstance(b, numpy.ndarray):
+            ctx.check(A, not shares(a, b), site, "two calls return independent arrays", icls,
+                      witness=dict(W, subject=S.kind, args=[dtspell(x) if not isinstance(x, str) else x for x in args]), coords=coords)
+        wrote = clobber(a)
+        wrote = clobber(b) or wrote
+        if not wrote:
+            ctx.sumnote("returned arrays that could not be overwritten (read-only or empty)")
+            continue
+        same = numpy.array_equal(obj.mat, raw)
+        ctx.check(A, same, site, "overwriting the returned array leaves the object's raw calls unchanged", icls,
+                  what="%s (%s): after the caller overwrote the returned array the object's raw calls differ from the calls it was "
+                       "built from" % (site, icls), witness=dict(W, subject=S.kind, calls_now=obj.mat, original_calls=raw), coords=coords)
+        if not same:
+            obj.mat = raw.copy()
+    now = dict(own_arrays(obj))
+    badl = [k for k, v in snap.items() if k not in now or not same_labels(now[k], v)]
+    ctx.check(A, not badl, "%s summary methods" % type(obj).__name__, "overwriting the returned arrays leaves the object's label arrays unchanged",
+              "any dtype", witness=dict(W, subject=S.kind, changed=badl), coords=coords)
+    for name in STATS:     # hidden state (e.g. a remembered answer handed out without a copy) shows here
+        site, out, ok = do_call(ctx, S, name, (), {}, "default dtype", W, coords)
+        if not ok or name in S.bad:
+            continue
+        ctx.check(A, matches_oracle(name, out, R), site, "== definition on the original calls after the caller overwrote every returned array",
+                  "default dtype", witness=dict(W, subject=S.kind, got=out), coords=coords)
+
+
 def do_call(ctx, S, meth, args, kwargs, icls, W, coords):
     """Affirmative-result policy: a summary call on a valid matrix must return."""
     site = site_of(S.obj, meth)
     ctx.ok("C09.returns")
+    alias_icls = icls          # aliasing is a property of the method and the requested dtype/format, not of the object's past
     if S.icls is not None:
         icls = S.icls
     try:
@@ -286,6 +385,7 @@ def do_call(ctx, S, meth, args, kwargs, icls, W, coords):
                                                       type(e).__name__, str(e)[:160]),
                       witness=dict(W, subject=S.kind), coords=coords)
         return site, None, False
+    check_alias(ctx, S, site, out, alias_icls, W, coords)
     if not numpy.array_equal(S.obj.mat, S.raw):   # oracle validity: the raw calls must not be modified by a summary
         ctx.violation(S.clause or "C09.definition", site, "leaves the raw allele calls unchanged", icls, witness=dict(W, subject=S.kind), coords=coords)
         S.obj.mat = S.raw.copy()
@@ -506,6 +606,8 @@ def run_subject(ctx, S, R, g, iN, iP, W, coords, history=False):
         if pre is not None:
             judge_dtype(ctx, S, name, pre[0], pre[1], pre[2], R, W, coords)
     judge_codings(ctx, S, R, iP, W, coords)
+    if g.random() < (0.07 if history else 0.12):
+        overwrite_phase(ctx, S, R, g, W, coords)
     # fixation flag is the exact complement of the polymorphism flag (as returned)
     fx, po = S.res.get("afixed"), S.res.get("apoly")
     if fx is not None and po is not None:
